@@ -29,6 +29,10 @@ func main() {
 		fmt.Fprintln(os.Stderr, "usage: hcdrv <family> < cases > observations")
 		os.Exit(2)
 	}
+	if os.Args[1] == "crashchild" {
+		crashChildMain(os.Args[2:])
+		return
+	}
 	f, ok := families[os.Args[1]]
 	if !ok {
 		fmt.Fprintln(os.Stderr, "unknown family", os.Args[1])
